@@ -175,7 +175,8 @@ Definition fdef_of (f : sfun) : fdef :=
                                      | _ => call_func (sf_name f) a k end
                   | _ => wrapper LF (sf_kind f) (build_contracts f)
                   end;
-     f_body := body_of f |}.
+     f_body := body_of f;
+     f_accepts := fun a k => match sf_stack f with [] => is_some (call_bind (sf_sig f) a k) | _ => true end |}.
 Fixpoint ftab_of (fs : list sfun) (n : fid) : option fdef :=
   match fs with [] => None | f :: t => if String.eqb (sf_name f) n then Some (fdef_of f) else ftab_of t n end.
 
@@ -190,6 +191,8 @@ Inductive action :=
 Inductive outcome := ORet (v : value) | OExc (e : exn) | OYield (v : value) | OStop (v : value).
 Definition of_gen_res (r : gen_res) : outcome := match r with GYield v => OYield v | GStop v => OStop v | GRaise e => OExc e end.
 Definition gvar (vars : list (nat * value)) (n : nat) : value := match nlookup n vars with Some v => v | None => VNone end.
+Definition has_var (vars : list (nat * value)) (n : nat) : bool := match nlookup n vars with Some _ => true | None => false end.
+Definition no_var : outcome := OExc (mk_exn KeyErrorC []).
 
 Definition do_action (vars : list (nat * value)) (a : action) : prog (outcome * list (nat * value)) :=
   match a with
@@ -197,10 +200,10 @@ Definition do_action (vars : list (nat * value)) (a : action) : prog (outcome * 
   | AGenNew x f a k => r <- trigger (Call f a k) ;;
                        Ret (match r with inl v => (ORet (VGen 0), nupd vars x v) | inr e => (OExc e, vars) end)
   | ACoNew x f a k => h <- trigger (Spawn f a k) ;; Ret (ORet (VGen 0), nupd vars x h)
-  | ANext x => r <- gen_step (gvar vars x) (Send VNone) ;; Ret (of_gen_res r, vars)
-  | ASend x v => r <- gen_step (gvar vars x) (Send v) ;; Ret (of_gen_res r, vars)
-  | AThrow x c tag => e <- user_exn c tag ;; r <- gen_step (gvar vars x) (Throw e) ;; Ret (of_gen_res r, vars)
-  | AClose x => r <- gen_step (gvar vars x) Close ;;
+  | ANext x => if has_var vars x then r <- gen_step (gvar vars x) (Send VNone) ;; Ret (of_gen_res r, vars) else Ret (no_var, vars)
+  | ASend x v => if has_var vars x then r <- gen_step (gvar vars x) (Send v) ;; Ret (of_gen_res r, vars) else Ret (no_var, vars)
+  | AThrow x c tag => if has_var vars x then e <- user_exn c tag ;; r <- gen_step (gvar vars x) (Throw e) ;; Ret (of_gen_res r, vars) else Ret (no_var, vars)
+  | AClose x => if negb (has_var vars x) then Ret (no_var, vars) else r <- gen_step (gvar vars x) Close ;;
                 Ret (match r with GStop _ => ORet VNone | GRaise e => OExc e | GYield v => OYield v end, vars)
   | ASwitch o => r <- catch (run_op true false o) ;; Ret (match r with inl _ => ORet VNone | inr e => OExc e end, vars)
   end.
